@@ -231,6 +231,7 @@ class Ctx(object):
         self.stop = None           # asyncio: stops the loop when timers run away
         self.calls = 0
         self.raiser = {}           # model -> first on_timeout callback that failed in the current firing
+        self.make_handler = None   # cb dict -> on_timeout recorder (set by _state_defs)
         self.models = [make_model(self, i) for i in range(case['nmodels'])]
         self.mid = {id(m): i for i, m in enumerate(self.models)}
 
@@ -281,16 +282,6 @@ def _state_defs(ctx, is_async):
         return f
 
     plain = plain_async if is_async else plain_sync
-
-    def marker(kind, s):
-        def f(event_data):
-            if kind == K_FIRED:
-                ctx.fired += 1
-                ctx.raiser[ctx.m_of(event_data)] = None
-                if ctx.fired > MAX_FIRINGS and ctx.stop is not None:
-                    ctx.stop()
-            log.append([kind, ctx.m_of(event_data), s, ctx.now()])
-        return f
 
     def fail(cb, m):
         """raise the failure of the callback's kind: an Exception, a BaseException that is not an Exception, or
@@ -350,9 +341,48 @@ def _state_defs(ctx, is_async):
             d['timeout'] = s['timeout']
         if s['given']:
             mk = on_timeout_async if is_async else on_timeout_sync
-            d['on_timeout'] = [marker(K_FIRED, s['id'])] + [mk(cb) for cb in s['on_timeout']]
+            d['on_timeout'] = [mk(cb) for cb in s['on_timeout']]      # exactly the case's handlers, possibly none
         out.append(d)
+    ctx.make_handler = on_timeout_async if is_async else on_timeout_sync
     return out
+
+
+def marked_feature(ctx, feature, is_async):
+    """the feature class with the expiry of a timer made observable: TFired is logged where the timer's function
+    (_process_timeout) starts, whatever the on_timeout list holds at that moment (possibly nothing)"""
+    def mark(state, event_data):
+        m = ctx.m_of(event_data)
+        ctx.fired += 1
+        ctx.raiser[m] = None
+        if ctx.fired > MAX_FIRINGS and ctx.stop is not None:
+            ctx.stop()
+        ctx.log.append([K_FIRED, m, _name_int(state.name), ctx.now()])
+
+    if is_async:
+        class Marked(feature):
+            async def _process_timeout(self, event_data):
+                mark(self, event_data)
+                await super()._process_timeout(event_data)
+    else:
+        class Marked(feature):
+            def _process_timeout(self, event_data):
+                mark(self, event_data)
+                super()._process_timeout(event_data)
+    Marked.__name__ = feature.__name__
+    return Marked
+
+
+def set_handlers(ctx, machine, op):
+    """history operation [3, state, handlers, how]: change the state's on_timeout list at run time, by assignment
+    through the public property (how = 0) or in place: emptied, then state.add_callback('timeout', f) (how = 1)"""
+    st = machine.get_state('s%d' % op[1])
+    fs = [ctx.make_handler(cb) for cb in op[2]]
+    if len(op) > 3 and op[3] == 1:
+        del st.on_timeout[:]
+        for f in fs:
+            st.add_callback('timeout', f)
+    else:
+        st.on_timeout = fs
 
 
 def _on_exception(ctx):
@@ -369,7 +399,7 @@ def _on_exception(ctx):
             else:
                 code = 999
             # the error handed over must be of the kind the callback failed with
-            want = {cb['id']: cb.get('kind', KIND_EXCEPTION) for st in ctx.case['states'] for cb in st['on_timeout']}.get(code)
+            want = {cb['id']: cb.get('kind', KIND_EXCEPTION) for lst in _handler_lists(ctx.case) for cb in lst}.get(code)
             have = KIND_EXCEPTION if isinstance(err, UserExc) else KIND_BASE if isinstance(err, UserBase) else \
                 KIND_CANCELLED if isinstance(err, asyncio.CancelledError) else None
             if code not in (0, 998, 999) and want != have:
@@ -382,10 +412,12 @@ def _on_exception(ctx):
 def _build(ctx, base, feature, S):
     case = ctx.case
     try:
-        @S.add_state_features(feature)
+        is_async = feature.__name__ == 'AsyncTimeout'
+
+        @S.add_state_features(marked_feature(ctx, feature, is_async))
         class M(base):
             pass
-        machine = M(model=ctx.models, states=_state_defs(ctx, feature.__name__ == 'AsyncTimeout'),
+        machine = M(model=ctx.models, states=_state_defs(ctx, is_async),
                     initial='s%d' % case['init'], auto_transitions=False, send_event=True,
                     ignore_invalid_triggers=case['ignore'], queued=case['queued'],
                     on_exception=_on_exception(ctx))
@@ -437,6 +469,9 @@ def run_threaded(case):
                     res = [R_TRUE if ctx.models[m].trigger('e%d' % e) else R_FALSE]
                 except Exception as ex:  # noqa
                     res = [_res_code(tr, ex)]
+            elif op[0] == 3:
+                set_handlers(ctx, machine, op)
+                res = []
             elif op[0] == 2:
                 # reconfiguration at run time through the public attribute of the state object
                 machine.get_state('s%d' % op[1]).timeout = op[2]
@@ -477,6 +512,9 @@ def run_async(case):
                         res = [R_TRUE if await ctx.models[m].trigger('e%d' % e) else R_FALSE]
                     except Exception as ex:  # noqa
                         res = [_res_code(tr, ex)]
+                elif op[0] == 3:
+                    set_handlers(ctx, machine, op)
+                    res = []
                 elif op[0] == 2:
                     machine.get_state('s%d' % op[1]).timeout = op[2]
                     ctx.log.append([K_SETTIMEOUT, op[1], op[2], loop.now()])
@@ -518,7 +556,7 @@ THREAD_CLASSES = ['Machine', 'HierarchicalMachine', 'LockedMachine', 'LockedHier
 ASYNC_CLASSES = ['AsyncMachine', 'HierarchicalAsyncMachine']
 RULE = ('cases = @add_state_features(Timeout) on Machine / HierarchicalMachine (flat configuration) / LockedMachine / '
         'LockedHierarchicalMachine (60%) or @add_state_features(AsyncTimeout) on AsyncMachine / HierarchicalAsyncMachine '
-        '(40%), queued (45%) or not, x 1-4 states (timeout 1-4 with 0-3 on_timeout recorders behind a marker recorder, '
+        '(40%), queued (45%) or not, x 1-4 states (timeout 1-4 with 0-3 on_timeout recorders, '
         'timeout 0, or none) x on_enter / on_exit lists of 0-2 recorders (half of them EMPTY: no extra turn of the asyncio '
         'loop between the cancellation of a timer and the next entry) of which at most one per list triggers an event on '
         'its model (on_enter 30%: leaves the state at once, re-enters it, internal, invalid; on_exit 15% queued / 5% '
@@ -530,7 +568,12 @@ RULE = ('cases = @add_state_features(Timeout) on Machine / HierarchicalMachine (
         'timeout, timeout+1, long), half of them with an extra pair of events of one model at the same instant with '
         'nothing in between (re-enter and leave before the cancelled asyncio timer task has run); 45% of the cases reassign '
         '`machine.get_state(s).timeout = v` (v = 0 in half of them, else 1-4) of states that were given on_timeout, at random '
-        'places and right after an event with another event of the same model behind it; re-trigger chains that '
+        'places and right after an event with another event of the same model behind it; 45% of the cases with a timeout '
+        'state change its on_timeout list at run time (assignment through the property, or emptied and refilled with '
+        'state.add_callback) right after an event and at random places, half of the given timeout states then being '
+        'created with on_timeout=[] (entered with nothing to call, handlers registered during the visit; also handlers '
+        'removed during the visit); the expiry marker TFired is logged by a subclass of the feature whose '
+        '_process_timeout logs and delegates, so the on_timeout lists hold exactly the case\'s handlers, possibly none; re-trigger chains that '
         'do not die out (state-only pre-simulation, then the model\'s fuel) lose their triggers; every 11th case has a '
         'state with timeout > 0 and no on_timeout (construction must raise AttributeError).  Threads: '
         'transitions.extensions.states.Timer replaced from outside by a virtual timer; asyncio: virtual-time event loop '
@@ -555,7 +598,7 @@ ASSUMPTIONS = ['threading.Timer and asyncio.sleep call back at their deadline (A
                'triggers on its own model and then no other callback of that list raises (AsyncMachine would cancel the '
                'concurrent transition: C08)',
                'the initial state is assigned, not entered: no timeout runs for it (mirrored, documented behaviour)']
-THEOREMS = ['C17_once_on_time', 'C17_nonvacuous', 'C17_reconfigured', 'C17_guard_needed', 'C17_invariant', 'C17_never_if_left', 'C17_restart',
+THEOREMS = ['C17_once_on_time', 'C17_nonvacuous', 'C17_reconfigured', 'C17_handlers_changed', 'C17_guard_needed', 'C17_invariant', 'C17_never_if_left', 'C17_restart',
             'C17_internal', 'C17_per_model', 'C17_validation', 'C17_async_shield', 'C17_async_exception']
 
 
@@ -656,6 +699,37 @@ def gen(rng, i, tier):
             i = rng.choice(evs)
             hist[i + 1:i + 1] = [[2, rng.choice(given), rng.choice([0, 0, 1, 3])], [1, rng.choice([0, 1])],
                                  [0, hist[i][1], rng.randrange(ne)]]
+    timed = [s['id'] for s in states if s['timeout']]
+    if timed and not malformed and rng.random() < 0.45:
+        # the on_timeout list of a timeout state changes at run time (handlers registered / removed during a visit):
+        # right after an event (a model may just have entered the state, possibly with an EMPTY list) and at random places
+        strip = not queued and any(cb['act'] is not None for s in states for cb in s['exit'])
+
+        def new_list():
+            out, acted = [], False
+            for _ in range(rng.choice([0, 1, 1, 2])):
+                act = None
+                if rng.random() < 0.3 and not strip and not (is_async and acted):
+                    who = rng.randrange(nm) if (not is_async and nm > 1 and rng.random() < 0.25) else None
+                    act = [who, rng.randrange(ne)]
+                    acted = True
+                out.append(dict(id=500 + fresh(), act=act, raises=rng.random() < 0.12,
+                                kind=rng.choice([KIND_EXCEPTION, KIND_EXCEPTION, KIND_BASE, KIND_CANCELLED] if is_async
+                                                else [KIND_EXCEPTION, KIND_EXCEPTION, KIND_BASE])))
+            if is_async and acted:
+                for cb in out:
+                    if cb['act'] is None:
+                        cb['raises'] = False
+            return out
+        for st in states:
+            if st['id'] in timed and st['given'] and rng.random() < 0.5:
+                st['on_timeout'] = []                     # entered with nothing to call; handlers come later
+        evs = [i for i, op in enumerate(hist) if op[0] == 0]
+        for i in sorted(rng.sample(evs, min(len(evs), rng.choice([1, 1, 2]))), reverse=True):
+            hist[i + 1:i + 1] = [[3, rng.choice(timed), new_list(), rng.randrange(2)]] + \
+                ([[1, rng.choice([0, 1])]] if rng.random() < 0.5 else [])
+        if rng.random() < 0.5:
+            hist.insert(rng.randrange(len(hist) + 1), [3, rng.choice(timed), new_list(), rng.randrange(2)])
     if rng.random() < 0.5:
         # re-enter and leave again at the same instant: a pair of events of one model with nothing in between
         k = rng.randrange(len(hist) + 1)
@@ -680,6 +754,22 @@ def _settle_before_reassign(hist):
     return out
 
 
+def _enc_cb(cb):
+    return [cb['id'], [] if cb['act'] is None else [[[] if cb['act'][0] is None else [cb['act'][0]], cb['act'][1]]],
+            bool(cb['raises'])]
+
+
+def _enc_op(op):
+    if op[0] == 3:
+        return [3, op[1], [_enc_cb(cb) for cb in op[2]]]
+    return list(op)
+
+
+def _handler_lists(case):
+    """every on_timeout list of the case: those the states are created with and those assigned at run time"""
+    return [s['on_timeout'] for s in case['states']] + [op[2] for op in case['history'] if op[0] == 3]
+
+
 def _enc_states(case):
     return [[s['id'], s['timeout'] or 0, bool(s['given']),
              [[cb['id'], [] if cb['act'] is None else [[[] if cb['act'][0] is None else [cb['act'][0]], cb['act'][1]]],
@@ -692,7 +782,7 @@ def enc(case):
     return [0, case['variant'] == 'async', bool(case['queued']), _enc_states(case),
             [[e, s, [] if d is None else [d], bool(ok)] for e, s, d, ok in case['trans']],
             bool(case['ignore']), case['onexc'], case['nmodels'], case['init'],
-            [list(op) for op in case['history']]]
+            [_enc_op(op) for op in case['history']]]
 
 
 def exit_guard(case):
@@ -720,10 +810,11 @@ def in_envelope(case):
     for s in case['states']:
         if any(len([cb for cb in s[k] if cb['act'] is not None]) > 1 for k in ('enter', 'exit')):
             return False
-        acting = [cb for cb in s['on_timeout'] if cb['act'] is not None]
+    for lst in _handler_lists(case):
+        acting = [cb for cb in lst if cb['act'] is not None]
         if len(acting) > 1 or any(cb['act'][0] is not None for cb in acting):
             return False
-        if acting and any(cb['raises'] for cb in s['on_timeout'] if cb['act'] is None):
+        if acting and any(cb['raises'] for cb in lst if cb['act'] is None):
             return False
     return True
 
@@ -940,6 +1031,11 @@ def stats(case, obs, dist):
         inc('cases_with_on_exit_callback_that_triggers')
     if any(not s['enter'] and not s['exit'] for s in case['states'] if s['timeout']):
         inc('cases_with_timeout_state_without_enter_exit_callbacks')
+    for op in case['history']:
+        if op[0] == 3:
+            inc('on_timeout_list_emptied_at_run_time' if not op[2] else 'on_timeout_list_changed_at_run_time')
+    if any(s['timeout'] and s['given'] and not s['on_timeout'] for s in case['states']):
+        inc('cases_with_timeout_state_created_with_empty_on_timeout')
     steps = _steps(obs)
     if steps is None:
         inc('construction_raised' if isinstance(obs, list) and obs[0] == 1 else 'undecodable')
@@ -1014,7 +1110,7 @@ def shrink_candidates(case):
         yield c
     if case['nmodels'] > 1 and all(op[0] != 0 or op[1] < case['nmodels'] - 1 for op in h) and \
             all(cb['act'] is None or cb['act'][0] is None or cb['act'][0] < case['nmodels'] - 1
-                for s in case['states'] for cb in s['on_timeout']):
+                for lst in _handler_lists(case) for cb in lst):
         c = copy.deepcopy(case)
         c['nmodels'] -= 1
         yield c
